@@ -138,3 +138,36 @@ Proof.
   destruct (Rlt_dec _ (threshold s)) as [L|_]; [lra|].
   split; [f_equal|]; field.
 Qed.
+
+(* ---- the same statements under the generated definedness predicate (no statement rests on Coq's total division: where
+        the Rust code would form 0/0 or x/0 — fwhm = 0, fwhm = 2 lambda_p, omega_p = 0 — the predicate is false) *)
+Lemma defined_span_nonzero w s : pump_spectral_amplitude_defined w s -> fwhm_span s <> 0 /\ spectral_width s <> 0.
+Proof.
+  intros (_ & _ & Hw). fold (lambda_p s) in Hw. fold (spectral_width s) in Hw. split; [|exact Hw].
+  intros E. apply Hw. rewrite spectral_width_eq, E. unfold Rdiv. ring.
+Qed.
+
+Lemma envelope_center_defined s : pump_spectral_amplitude_defined (omega_p s) s -> pump_spectral_amplitude (omega_p s) s = 1.
+Proof. intros _. apply envelope_center. Qed.
+
+Lemma envelope_half_max_defined s :
+  pump_spectral_amplitude_defined (omega_p s) s ->
+  pump_spectral_amplitude (omega_p s + fwhm_span s / 2) s ^ 2 = 1 / 2 /\
+  pump_spectral_amplitude (omega_p s - fwhm_span s / 2) s ^ 2 = 1 / 2.
+Proof. intros H. apply envelope_half_max. apply (defined_span_nonzero _ _ H). Qed.
+
+Lemma envelope_half_max_only_defined d s :
+  pump_spectral_amplitude_defined (omega_p s) s ->
+  pump_spectral_amplitude (omega_p s + d) s ^ 2 = 1 / 2 -> Rabs d = Rabs (fwhm_span s / 2).
+Proof. intros H. apply envelope_half_max_only. apply (defined_span_nonzero _ _ H). Qed.
+
+(* the predicate really excludes the degenerate bandwidths *)
+Lemma not_defined_at_double_lambda w s : fwhm s = 2 * lambda_p s -> ~ pump_spectral_amplitude_defined w s.
+Proof.
+  intros E (_ & (H1 & _) & _). fold (lambda_p s) in H1. unfold vacuum_wavelength_to_frequency_defined in H1. apply H1. rewrite E. lra.
+Qed.
+Lemma not_defined_at_zero_bandwidth w s : fwhm s = 0 -> ~ pump_spectral_amplitude_defined w s.
+Proof.
+  intros E (_ & _ & Hw). apply Hw. fold (lambda_p s). unfold fwhm_to_spectral_width. rewrite E.
+  replace (lambda_p s - 0.5 * 0) with (lambda_p s + 0.5 * 0) by lra. unfold Rdiv. ring.
+Qed.
